@@ -29,7 +29,9 @@ CHUNK = 500
 RULE = ("gen(seed): 1-2 connections (IPv4 / IPv6 / unix-socket peers), 2-4 keep-alive requests each "
         "with per-request X-Real-Ip / X-Forwarded-For / X-Scheme / X-Forwarded-Proto drawn from "
         "valid, short-form, trusted, garbage, empty and list values; handler kinds sync / async "
-        "sleeping / streaming / early finish / raising, requests rejected after headers; pipelined or "
+        "sleeping / streaming / early finish / raising, requests rejected after headers; 25% slow-reader "
+        "connections (small client window, peer.auto=False, drain starts late) with early answers "
+        "too large for the window; pipelined or "
         "sequential segmentation; disconnect after the last request; trusted_downstream and "
         "protocol knobs; low-rate recv_cap / defer tapes. "
         "non-trivial = some connection had an observed request k>=2 whose allowed (remote_ip, "
@@ -52,6 +54,7 @@ ASSUMPTIONS = [
 ]
 
 _NOLOG = (lambda handler: None)
+_PAD = b"n" * 20000
 
 
 # --------------------------------------------------------------------------
@@ -139,7 +142,10 @@ class _Early(_H):
         self.st.see(self.ci, self.ri, "prep", self.request)
         self.st.see(self.ci, self.ri, "end", self.request)
         self.set_status(403)
-        self.finish(b"no")
+        self.finish(_PAD[:self.sp.get("big") or 2])
+        if self.request.connection.stream.writing():
+            self.st.probes["early_answer_write_pending"] = \
+                self.st.probes.get("early_answer_write_pending", 0) + 1
 
     def data_received(self, chunk):
         return None
@@ -321,6 +327,10 @@ def gen(rng, tier, index):
         addr = rng.choice(ADDRS) if rng.random() < 0.9 else ["", 1]
         addrs = [addr[0] or "0.0.0.0"]
         nreq = rng.choice([2, 2, 3, 3, 4]) if tier == "quick" else rng.choice([2, 3, 4, 4, 6])
+        # slow reader: small client window, the client starts draining the responses late, so
+        # a response can still be in the server's write buffer when the handler has finished
+        slow = rng.random() < 0.25
+        drain = rng.choice([3, 6, 12]) if slow else 0
         reqs = []
         for ri in range(nreq):
             hk = rng.choice(["s", "s", "a", "a", "t", "t", "e", "x"])
@@ -336,6 +346,12 @@ def gen(rng, tier, index):
                  "sleep": rng.choice([0, 1, 2, 4]) if hk in ("a", "t", "x") else 0}
             if hk == "a" and not r["sleep"]:
                 r["sleep"] = 1
+            if slow and ri < nreq - 1 and rng.random() < 0.5:
+                # answered before the body is read, with a response that does not fit the window
+                r["hk"] = "e"
+                if r["te"] in ("badchunk", "clte"):
+                    r["te"] = "cl"
+                r["big"] = rng.choice([600, 3000, 9000])
             reqs.append(r)
         # segmentation: pipelined (no boundary gaps), sequential (gap after each request) or mixed
         sizes = [len(build_request(ci, ri, r)) for ri, r in enumerate(reqs)]
@@ -347,7 +363,7 @@ def gen(rng, tier, index):
             pos += sz
             if mode == "sequential" or (mode == "mixed" and rng.random() < 0.5):
                 cuts.append(pos)
-                gaps.append(3 + reqs[ri]["sleep"] + rng.choice([0, 0, 2]))
+                gaps.append(3 + reqs[ri]["sleep"] + rng.choice([0, 0, 2]) + drain)
             elif mode == "pipelined" and rng.random() < 0.3:
                 cuts.append(pos)
                 gaps.append(rng.choice([0, 1]))
@@ -360,9 +376,12 @@ def gen(rng, tier, index):
             cuts, gaps = merged, g2
         conns.append({"addr": addr, "requests": reqs, "cuts": cuts, "gaps": gaps,
                       "start": 0 if ci == 0 else rng.choice([0, 1, 3, 9]),
-                      "end": rng.choice(["keep", "keep", "fin", "close", "rst"]),
-                      "end_gap": rng.choice([0, 1, 3, 8]),
-                      "tail": rng.choice([0, 0, 0, 10, 40])})
+                      "end": rng.choice(["keep", "keep", "fin", "close", "rst"]
+                                        + (["keep"] * 6 if slow else [])),
+                      "end_gap": rng.choice([0, 1, 3, 8]) + drain,
+                      "tail": rng.choice([0, 0, 0, 10, 40]),
+                      "window": rng.choice([32, 100, 400]) if slow else None,
+                      "drain": drain})
     tapes = {}
     if rng.random() < 0.2:
         tapes["recv_cap"] = {"v": [rng.choice([0, 1, 7, 30]) for _ in range(rng.randint(1, 5))],
@@ -430,7 +449,7 @@ def run(scn, full_log=False):
 
     bound = 20
     for c in conns:
-        bound += (c.get("start") or 0) + (c.get("end_gap") or 0)
+        bound += (c.get("start") or 0) + (c.get("end_gap") or 0) + (c.get("drain") or 0)
         bound += sum(g for g in c.get("gaps") or () if isinstance(g, int) and g > 0)
         bound += sum((r.get("sleep") or 0) + 2 + len(r.get("body") or "") // 2
                      for r in c.get("requests") or ())
@@ -476,9 +495,29 @@ def run(scn, full_log=False):
             await loop.idle()
             await httprig.shutdown(server)
 
+        async def _drain(peer, delay):
+            """Slow reader: nothing is read for `delay` units, then everything as it comes."""
+            if delay:
+                await asyncio.sleep(delay * UNIT)
+            rx = peer.rx
+            while True:
+                await peer.wait(lambda: bool(rx.rbuf) or rx.fin or rx.rst or peer.closed)
+                if peer.closed or rx.rst:
+                    return
+                if rx.rbuf:
+                    st.probes["slow_reader_drained"] = 1
+                peer.consume()
+                if rx.fin and not rx.rbuf:
+                    return
+
         def _drive(env, ls, ci, c, pa, data, peers):
-            peer, _ = httprig.connect(env, ls, name="c%d" % ci, peer_addr=pa)
+            w = c.get("window")
+            peer, _ = httprig.connect(env, ls, name="c%d" % ci, peer_addr=pa,
+                                      window=w if isinstance(w, int) and w > 0 else None)
             peers.append(peer)
+            if isinstance(w, int) and w > 0:
+                peer.auto = False
+                loop.create_task(_drain(peer, c.get("drain") or 0))
             if data:
                 httprig.send_cut(peer, data, c.get("cuts") or (), c.get("gaps") or ())
             D = max(0.0, (peer.tx.last_arrival - loop.time()) / UNIT) if data else 0
